@@ -11,7 +11,9 @@ META = dict(
                 "chunker.FromString on a class product of boundary strings plus a seeded grammar fuzzer; recorded runs of "
                 "every splitter kind over random/constant/periodic inputs up to 4 MiB (8 MiB thorough) under 6 "
                 "fragmentation patterns are validated by TLC against the property machine (lossless, non-empty, "
-                "<= ChunkSizeLimit, min/max for all but the last chunk, identical cuts across fragmentations)."),
+                "<= ChunkSizeLimit, min/max for all but the last chunk, identical cuts across fragmentations); all chunks "
+                "of all runs, inputs and splitter kinds are retained in sessions (also with several live instances whose "
+                "NextBytes calls interleave) and must still equal their input ranges after every later run (Recheck)."),
     level_note=("Trusted: harness projection (chunk -> length + byte-equality with the next input range; splitter -> "
                 "kind/min/max read from its fields), the scripted/fragmenting readers, DefaultBlockSize left at its default; "
                 "reader errors other than io.EOF are out of scope."),
@@ -58,7 +60,8 @@ def run(ctx):
                        "Read, zero-read budget 1 quick / 2 thorough), non-trivial = >= 2 chunks and a short read. "
                        "G-parse: class product forms x boundary numbers x label variants + seeded fuzzer, non-trivial = "
                        "accepted string. T: per accepted spec string inputs at the min/max boundaries, multi-chunk and "
-                       "multi-MiB inputs x 6 fragmentation patterns.")
+                       "multi-MiB inputs x 6 fragmentation patterns; chunks retained across runs/inputs/kinds and re-read "
+                       "after every run, 3/8 rounds of randomly interleaved live instances.")
     # ---------------------------------------------------------------- M
     ctx.tlc_mc("Chunker", "MCChunker.tla", "MCChunker.cfg", timeout=600, coverage=not ctx.quick,
                allow_zero=("Next",))
